@@ -613,6 +613,40 @@ func (w *wbuild) Drive(s *simrt.Sched, out *RunResult) {
 			}
 			cs.History = append(cs.History, HistOp{Op: "wsmut", Note: note})
 			shapeParts = append(shapeParts, "wsmut")
+			if note == "fresh-checkout" && chance(c, 2, 3, "edit-after-fresh-checkout") {
+				// ... and a target whose dependencies have to be restored is edited, so that its
+				// command runs in the build that restores them (directory outputs preferred)
+				var cands, withDir []string
+				for _, l := range w.U.Labels() {
+					for _, d := range w.U.DepTargets(w.U.Specs[l]) {
+						for _, o := range w.U.Specs[d].Outs {
+							cands = append(cands, l)
+							if o.Kind == "dir" {
+								withDir = append(withDir, l)
+							}
+						}
+					}
+				}
+				if len(withDir) > 0 {
+					cands = withDir
+				}
+				if len(cands) > 0 {
+					l := cands[c.Choose(len(cands), "edit-after-fresh-checkout-target")]
+					snapshots = append(snapshots, w.U.Clone())
+					nu := w.U.Clone()
+					nu.Specs[l].Ver++
+					ed := Edit{Op: "command", Target: l, Detail: "right after the fresh checkout"}
+					w.mu.Lock()
+					w.U = nu
+					w.mu.Unlock()
+					w.syncWorkspace(m, nu)
+					if mB != nil {
+						w.syncWorkspace(mB, nu)
+					}
+					cs.History = append(cs.History, HistOp{Op: "edit", Edit: &ed})
+					shapeParts = append(shapeParts, "command")
+				}
+			}
 		case "taint":
 			labels := w.U.Labels()
 			l := labels[c.Choose(len(labels), "taint-target")]
@@ -706,6 +740,14 @@ func (w *wbuild) mutateWorkspace(m *Machine) string {
 	if len(cands) == 0 {
 		return "none"
 	}
+	if c.Choose(6, "wsmut-fresh-checkout") == 5 {
+		// a fresh checkout: no output of any target is in the workspace, the cache is warm
+		for _, l := range w.U.Labels() {
+			removeOutputs(m.WS, w.U.Specs[l])
+		}
+		w.lastMut, w.lastMutKind = nil, "fresh-checkout"
+		return "fresh-checkout"
+	}
 	l := cands[c.Choose(len(cands), "wsmut-target")]
 	sp := w.U.Specs[l]
 	o := sp.Outs[c.Choose(len(sp.Outs), "wsmut-out")]
@@ -724,6 +766,12 @@ func (w *wbuild) mutateWorkspace(m *Machine) string {
 
 // replayMutation applies the last workspace mutation to another machine's checkout.
 func (w *wbuild) replayMutation(m2 *Machine) {
+	if w.lastMutKind == "fresh-checkout" {
+		for _, l := range w.U.Labels() {
+			removeOutputs(m2.WS, w.U.Specs[l])
+		}
+		return
+	}
 	if w.lastMut == nil || (w.lastMutKind != "delete" && w.lastMutKind != "delete-parent") {
 		// content tampering is not replayed on the minimal machine: grog does not load outputs
 		// there, so the tampered bytes would (rightly) stay and are not "materialised" outputs
@@ -1329,7 +1377,15 @@ func (w *wbuild) checkBuild(res *InvResult, req BuildReq, opts InvOpts, cm *cach
 		return
 	}
 	if res.ExitCode != 0 {
-		report("C05", "unexpected-failure", "exit-nonzero", fmt.Sprintf("no selected target fails in the model, but grog exited %d", res.ExitCode))
+		// whose clause it is: under load_outputs=minimal "a build succeeds or fails exactly as under
+		// all" (C15); after a loss in the cache "the next build re-executes rather than failing" (C07)
+		ufProp := "C05"
+		if opts.LoadOutputs == "minimal" {
+			ufProp = "C15"
+		} else if w.fs != nil && w.fs.damaged {
+			ufProp = "C07"
+		}
+		report(ufProp, "unexpected-failure", "exit-nonzero", fmt.Sprintf("no selected target fails in the model, but grog exited %d", res.ExitCode))
 		return
 	}
 	// ---- outputs equal a clean build (C01 / C06), mode all only
